@@ -7,14 +7,14 @@ package world
 import (
 	"crypto"
 	"crypto/dsa"
-	"encoding/asn1"
-	"math/big"
 	"crypto/rsa"
 	"crypto/x509"
 	"embed"
+	"encoding/asn1"
 	"encoding/base64"
 	"encoding/pem"
 	"fmt"
+	"math/big"
 	"strings"
 	"sync"
 )
